@@ -420,6 +420,11 @@ func c04Concurrent(c *fw.Ctx, round int) {
 				}
 				outcomes.Store(tag, cnt)
 				atomic.AddInt64(&accepted, 1)
+				if rg.Intn(4) == 0 {
+					// an acknowledgement of the wrong type must leave the entry alone, also while a sweep runs
+					q.Ack(sess, &packet.PubRec{Header: &packet.Header{}, MessageId: id})
+					q.Ack(sess, &packet.PubComp{Header: &packet.Header{}, MessageId: id})
+				}
 				if rg.Intn(2) == 0 {
 					if q.Ack(sess, &packet.PubAck{Header: &packet.Header{}, MessageId: id}) == nil {
 						atomic.AddInt64(&acksOK, 1)
